@@ -192,7 +192,16 @@ func c17Doc(rt *rapid.T, paths []gen.PathInfo, prefix string) string {
 	return b.String()
 }
 
-func c17OldRules(rt *rapid.T, paths []gen.PathInfo) []*gast.Rule {
+func c17OldRules(rt *rapid.T, all []gen.PathInfo) []*gast.Rule {
+	// the single-firing old rules must not read what the multi-cycle rule below writes (their results
+	// would depend on the firing order)
+	counterLocs := map[string]bool{"F.I64": true, "F.Sub.X": true, "F.Arr[1]": true, `F.M["a"]`: true}
+	var paths []gen.PathInfo
+	for _, p := range all {
+		if !counterLocs[p.Text] {
+			paths = append(paths, p)
+		}
+	}
 	g := gen.NewXG(rt, gen.ExprCfg{Paths: paths, Recv: "F", StrFuncs: true, SmallLits: true, NoPtrNum: true})
 	n := rapid.IntRange(1, 3).Draw(rt, "nold")
 	var rs []*gast.Rule
@@ -203,6 +212,12 @@ func c17OldRules(rt *rapid.T, paths []gen.PathInfo) []*gast.Rule {
 		}
 		rs = append(rs, c16MkRule(fmt.Sprintf("Old%d", i), cond, g.OfType(gast.TInt, 1)))
 	}
+	// a rule that needs several cycles and therefore the working memory's invalidation: it reads and
+	// assigns a location the (possibly rejected) text is likely to mention as well
+	lim := int64(rapid.IntRange(2, 5).Draw(rt, "old_count_limit"))
+	loc := []*gast.Path{gast.P("F", "I64"), gast.P("F", "Sub", "X"), gast.P("F", "Arr").At(gast.I(1)), gast.P("F", "M").At(gast.S("a"))}[rapid.IntRange(0, 3).Draw(rt, "old_count_loc")]
+	rs = append(rs, &gast.Rule{Name: "OldCount", When: &gast.Bin{Op: gast.OpLT, L: loc, R: gast.I(lim)},
+		Then: []gast.Stmt{&gast.Assign{LHS: loc, Op: "+=", RHS: gast.I(1)}, &gast.Assign{LHS: gast.P("J", "out_OldCount"), Op: "=", RHS: loc}}})
 	return rs
 }
 
@@ -338,7 +353,7 @@ func c17Observe(lib *ast.KnowledgeLibrary, names []string, st *facts.State) (map
 	}
 	s2 := st.Copy()
 	dc2, _ := obs.NewDataContext(s2)
-	res := obs.Execute(kb2, dc2, obs.RunOpts{MaxCycle: uint64(len(names) + 2)})
+	res := obs.Execute(kb2, dc2, obs.RunOpts{MaxCycle: uint64(len(names) + 12)})
 	if res.Panicked != nil {
 		return nil, fmt.Errorf("Execute panicked: %v", res.Panicked)
 	}
@@ -348,6 +363,11 @@ func c17Observe(lib *ast.KnowledgeLibrary, names []string, st *facts.State) (map
 		o := c07Outcome{Match: mset[n]}
 		if v, ok := j["out_"+n]; ok {
 			o.Sink, o.Has = v, true
+		}
+		if n == "OldCount" {
+			// the multi-cycle rule: its last written value and the way the run ended
+			o.Sink = fmt.Sprintf("%v/%s", o.Sink, errClass(res.Err))
+			o.Has = true
 		}
 		out[n] = o
 	}
